@@ -270,7 +270,7 @@ def run_one(desc: dict, controller: "Recorder | None" = None) -> dict:
         return json_response(status, body)
 
     raw = build_schema(desc)
-    phase_names = {"examples": PhaseName.EXAMPLES, "coverage": PhaseName.COVERAGE, "fuzzing": PhaseName.FUZZING,
+    phase_names = {"probing": PhaseName.PROBING, "examples": PhaseName.EXAMPLES, "coverage": PhaseName.COVERAGE, "fuzzing": PhaseName.FUZZING,
                    "stateful": PhaseName.STATEFUL_TESTING}
     ctx = ExecutionContext()
     fatal = ""
